@@ -114,6 +114,16 @@ Theorem C18_builtin_outbounds :
 Proof. exact reserved_is_builtin. Qed.
 Print Assumptions C18_builtin_outbounds.
 
+(* reserved_outbounds (gen/C18_Consts.v) is the set of ALL 8-bit indices for which the real
+   OutboundIndex.IsReserved answered true, evaluated exhaustively by the harness on every run; the theorem
+   above says that set is exactly the complement of the user-defined range; in particular it contains
+   direct and block *)
+Theorem C18_builtin_direct_block :
+  is_reserved outbound_direct = true /\ is_reserved outbound_block = true /\
+  builtin_outbound outbound_direct = true /\ builtin_outbound outbound_block = true.
+Proof. exact builtin_direct_block. Qed.
+Print Assumptions C18_builtin_direct_block.
+
 (* NormalizeDomain (applied by the sniffers before the control plane sees the value) on the classes the
    statement names: "[literal]" becomes the literal and is then treated as an IP literal; a value that
    carries a port becomes its bare host, which has no bracket. *)
